@@ -107,7 +107,7 @@ def step (_ : Unit) (j : Json) : Unit × Json :=
   | some "agg" =>
     match (arr? j "rows").bind (·.mapM elemOf), (arr? j "aggs").bind (·.mapM aggOf) with
     | some ts, some aggs =>
-      if crashes Drv.numOf aggs ts then ((), Json.mkObj [("skip", Json.bool true), ("why", "crash-region")]) else
+      if rejected aggs then ((), Json.mkObj [("err", "compile")]) else
       let needsNum := aggs.any fun a => match a.agg with
         | .histogram f _ => inexactVals (ts.map (lookup · f))
         | .percentile f _ => inexactVals (ts.map (lookup · f))
